@@ -199,7 +199,8 @@ def render_expr(e):
     if k == "asg":
         return rx(e[2], 14) + " " + e[1] + " " + rx(e[3], 2)
     if k == "ter":
-        return rx(e[1], 4) + " ? " + rx(e[2], 3) + " : " + rx(e[3], 3)
+        # OCCA rejects an unparenthesised ?: as the middle operand ("a ? b ? 1 : 2 : 3"): it is always parenthesised
+        return rx(e[1], 4) + " ? " + rx(e[2], 4) + " : " + rx(e[3], 3)
     if k == "comma":
         return rx(e[1], 1) + ", " + rx(e[2], 2)
     if k == "cast":
@@ -1200,7 +1201,10 @@ class Gen:
         self.feat.add("embedded-side-effect")
         c = self.u()
         if c < 0.3:
-            return ["post", self.pick(["++", "--"]), ["var", v["name"]]]
+            # OCCA rejects x++ / x-- directly in front of ) or ] ("Ambiguous operator"): an embedded postfix operator is
+            # always the left operand of a binary operator
+            post = ["post", self.pick(["++", "--"]), ["var", v["name"]]]
+            return ["bin", self.pick(["+", "-", "*", "<", "=="]), post, self.expr(scope, "int", max(0, depth - 1))]
         if c < 0.5:
             return ["pre", self.pick(["++", "--"]), ["var", v["name"]]]
         if c < 0.8:
